@@ -171,5 +171,14 @@ Definition run_C15 (op : Z) (args : list val) : val :=
                  if wf_blockb MAX_SIZE b
                  then judge impl (VInt (3 * lenZ (wire_block_stripped b) + lenZ (wire_block b))) else unconstrained]
       | None => VList [bad_args; unconstrained] end
+  | 9, [tv; tv2; impl] =>          (* weight of a MUTABLE transaction, asked, edited in place into a second value, asked again *)
+      match tx_of_val tv, tx_of_val tv2 with
+      | Some t, Some t2 =>
+          VList [VList [vres VInt (tx_calc_weight t); vres VInt (tx_calc_weight t2)];
+                 if wf_txb MAX_SIZE t && negb (is_nil (tx_vout t)) && wf_txb MAX_SIZE t2 && negb (is_nil (tx_vout t2))
+                 then judge impl (VList [VInt (3 * lenZ (wire_tx_stripped t) + lenZ (wire_tx t));
+                                         VInt (3 * lenZ (wire_tx_stripped t2) + lenZ (wire_tx t2))])
+                 else unconstrained]
+      | _, _ => VList [bad_args; unconstrained] end
   | _, _ => bad_args
   end.
